@@ -37,6 +37,8 @@ def _valid_source(dna, iu):
         L.append("    for i in 0..lit.len() { assert_eq!(lit.nth(i), run.nth(i)); }")
         if 0 < len(lit) <= 32:
             L.append('    let k = kmer!("%s"); assert_eq!(k, lit); assert_eq!(k.to_string(), "%s"); assert_eq!(h(&k), h(lit));' % (lit, lit))
+        if 0 < len(lit) <= 64:
+            L.append('    let k128 = kmer!("%s", u128); assert_eq!(k128, lit); assert_eq!(k128.to_string(), "%s"); assert_eq!(h(&k128), h(lit));' % (lit, lit))
         L.append("}")
         index["dna_%d" % k] = (a, len(L), lit)
     for k, lit in enumerate(iu):
